@@ -270,3 +270,25 @@ def call_matches(term, *suffixes):
                 if n == s or n.endswith('::' + s) or n.endswith(s):
                     return True
     return False
+
+
+def copy_web(body, tr, reach, seed):
+    """Locals connected to `seed` by plain copies/moves (through temporaries, tuple aggregates and their fields): the
+    different names one running value is known by (a helper's parameter and result, a fold's accumulator)."""
+    web = {seed}
+    changed = True
+    while changed:
+        changed = False
+        for l in range(len(body.locals)):
+            for (dbi, si, kind, rv) in tr.defs.of(l):
+                if dbi not in reach or kind != 'assign' or rv['r'] != 'use' or 'l' not in rv['a']:
+                    continue
+                o = tr.origin(rv['a'])
+                if o['o'] == 'local' and not o['p']:
+                    if o['l'] in web and l not in web:
+                        web.add(l)
+                        changed = True
+                    elif l in web and o['l'] not in web:
+                        web.add(o['l'])
+                        changed = True
+    return web
